@@ -57,6 +57,9 @@ def universe(tier):
                 forms.append(f"y ~ {combo[0]}*{combo[1]}")
                 forms.append(f"y ~ 0 + {combo[0]} + {t}")
                 forms.append(f"y ~ {combo[0]}/{combo[1]}")
+                # one atom written in two terms that are coded differently (reduced main effect, full inside the interaction)
+                forms.append(f"y ~ {combo[0]} + {t}")
+                forms.append(f"y ~ {combo[1]} + {t}")
                 # '*' with a parenthesised sum (Term x Model branch of Term.__mul__): main effects and interactions must not
                 # share factor objects, or the coding chosen for one leaks into the labels of the other
                 extra = next(v for v in ("x", "z", "h") if v not in cols)
